@@ -1469,7 +1469,7 @@ static const Entry kTable[] = {
     {"FS.sv4.coarse", &runConfig<CfgFS<int, Coarse, AInt, amc::SmallVector<int, 4, AInt>, CGreater> >},
     {"FS.fcv16.mod", &runConfig<CfgFS<int, ModLess, amc::vec::EmptyAlloc, amc::FixedCapacityVector<int, 16>, CGreater, 16> >},
     // FlatSet::extract(const_iterator) needs a pointer-like vector iterator: not available over std::vector
-    {"FS.std.less", &runConfig<CfgFS<int, CLess, LInt, std::vector<int, LInt>, CGreater, 0, false> >},
+    {"FS.std.less", &runConfig<CfgFS<int, CLess, LInt, std::vector<int, LInt>, CGreater, 0, true> >},
 #elif GROUP == 2
     {"FS.amc.less.NTR", &runConfig<FSamc<El<0>, CLess, CGreater, ANTR> >},
     {"FS.amc.less.TR", &runConfig<FSamc<El<1>, CLess, CGreater, ATR> >},
